@@ -157,6 +157,21 @@ needs.update({
  "C07-v2": ("pma constructor rejects Q >= M while ma() is relaxed to reject only Q > M", "pma with an order assigned after construction so that ma_order == ar_order"),
  "C07-v3": ("np.empty work vector in arma_estimate (same as C07-u1, other author)", "parma with ar_order < ma_order after at least one earlier parma computation in the process"),
 })
+
+needs.update({
+ "C06-w1": ("cshift via np.concatenate((data[-offset:], data[:-offset])): offsets no longer wrap modulo the length", "cshift with |offset| > len(data)"),
+ "C06-w2": ("datatype decided from the values (isreal(data).all()) instead of the dtype", "data of complex dtype whose imaginary part is identically zero, then a stored or computed two-sided PSD"),
+ "C06-w3": ("twosided_2_onesided replaces NaN in the mirrored negative-frequency half by 0 before adding", "a NaN in a negative-frequency bin whose positive partner is finite, passed to the helper"),
+ "C06-x1": ("NFFT setter remembers the NFFT of an up-to-date PSD and clears `modified` when NFFT is set back to it, but still resets the sides label on both legs", "computed PSD, non-default sides, NFFT = other, NFFT = original with no read in between"),
+ "C06-x2": ("positivity check moved into Range (after it stored N); the NFFT setter updates the range before its own state", "a rejected NFFT <= 0 on a live object, then continued use"),
+ "C06-x3": ("get_converted_psd trusts `modified` for a never-computed PSD; the sides setter clears the flag on a cold object", "sides = L before the PSD was ever computed, then get_converted_psd(L) as the first access (evaluated with the C07 check: M06 objects always hold a PSD)"),
+ "C07-w1": ("pminvar slices int(round(NFFT/2.)) values for odd NFFT (banker's rounding)", "pminvar, real data, odd NFFT with NFFT % 4 == 1"),
+ "C07-w2": ("lag setter looks its old value up under an unmangled name: every lag assignment, also of the same value, invalidates", "parametric estimator, computed PSD, non-default sides, p.lag = p.lag (the needless recomputation resets sides). NOT CLAIMED: the recomputed values are identical and the representation reset is what the pinned tree itself does for p.data = p.data; the check compares re-assignments modulo the documented sides reset"),
+ "C07-w3": ("NFFT bound check assert NFFT >= 0: the value 0 is stored and the axis helper then raises ZeroDivisionError", "p.NFFT = 0 on an existing object, the exception caught, the object used again"),
+ "C07-x1": ("Range validates sampling (<= 0 rejected) after Spectrum stored its own copy and before modified is set", "p.sampling = a non-positive value on an existing object, then continued use"),
+ "C07-x2": ("data setter derives N and datatype from the raw argument before converting it", "a rejected p.data = <tuple> whose length or kind differs from the stored data, then an NFFT assignment or recomputation"),
+ "C07-x3": ("plot(sides=...) switches the object's sides temporarily and restores them at the end without try/finally", "plot(sides=<other>) that raises while drawing or saving, then continued use"),
+})
 res = json.load(open('/verif/seeded/RESULTS.json'))
 for sid, (mech, need) in needs.items():
     d = '/verif/seeded/' + sid
